@@ -137,15 +137,54 @@ CtxOf(c, id) ==
     CASE c = "tx" -> CtxTx(id) [] c = "prop" -> CtxProp(id) [] c = "cfg" -> CtxCfg(id)
       [] c = "mast" -> CtxMast(id) [] c = "conn" -> CtxConn(id)
 
+\* Fine mode: the context of the next persisted effect of an in-flight reconcile - is the record it writes still
+\* the one it read (a stale write is refused by the optimistic lock), and what changed under it
+CtxExec(a) ==
+    LET f == infl[a]
+        e == Head(f.plan)
+    IN <<"exec", f.c, e.k,
+         CASE e.k \in {"cfgs", "cfgu"} ->
+                IF e.key \notin DOMAIN cfgs THEN <<"gone">>
+                ELSE LET cur == cfgs[e.key] IN
+                     <<Ver(Pack, "cfg", e.key) # e.ver, cur.term # e.rec.term, cur.master # e.rec.master,
+                       cur.committed # e.rec.committed, cur.applied # e.rec.applied, cur.state # e.rec.state,
+                       cur.proposed # e.rec.proposed, cur.index # e.rec.index>>
+           [] e.k = "prop" ->
+                IF e.key \notin DOMAIN props THEN <<"gone">>
+                ELSE <<Ver(Pack, "prop", e.key) # e.ver, PhStr(props[e.key].ph), PhStr(e.rec.ph),
+                       props[e.key].next # e.rec.next, props[e.key].prev # e.rec.prev>>
+           [] e.k = "tx" ->
+                <<Ver(Pack, "tx", e.key) # e.ver, txs[e.key].state, e.rec.state, PhStr(txs[e.key].ph), PhStr(e.rec.ph)>>
+           [] e.k = "propc" -> <<e.key \in DOMAIN props>>
+           [] e.k = "cfgc" -> <<e.key \in DOMAIN cfgs>>
+           [] e.k = "dev" -> <<e.tag, e.conn \in DOMAIN conns, failq[e.key] # << >>, Cmp(e.eid, dev[e.key].maxeid),
+                               e.key \in DOMAIN cfgs /\ cfgs[e.key].master = e.conn,
+                               IF e.key \in DOMAIN cfgs THEN Cmp(cfgs[e.key].term, e.eid) ELSE "-">>
+           [] e.k = "plug" -> <<e.valid>>
+           [] OTHER -> << >> >>
+
+\* the persistent state a restarting process finds
+CtxCrashed ==
+    <<"crashed",
+      {<<PhStr(props[id].ph), props[id].kind, props[id].prev = 0, props[id].next = 0,
+         IF props[id].t \in DOMAIN cfgs
+         THEN <<Cmp(cfgs[props[id].t].proposed, props[id].i), Cmp(cfgs[props[id].t].committed, props[id].i),
+                Cmp(cfgs[props[id].t].applied, props[id].i)>> ELSE <<"nocfg">> >> : id \in DOMAIN props},
+      {<<txs[i].state, PhStr(txs[i].ph), {id \in txs[i].props : id \notin DOMAIN props} # {}>> : i \in DOMAIN txs}>>
+
 ASSUME TLCSet(7, {})
 
+CoverStep(c, id) == IF Fine THEN [k |-> "begin", c |-> c, id |-> IdStr(c, id)] ELSE [k |-> "run", c |-> c, id |-> IdStr(c, id)]
+
 Cover ==
-    (CoverOn /\ up /\ infl = EmptyFn) =>
-        LET pend == UNION {{<<c, id>> : id \in q[c]} : c \in Ctls}
-            new  == {x \in pend : CtxOf(x[1], x[2]) \notin TLCGet(7)}
+    CoverOn =>
+        LET pend == IF up THEN UNION {{<<c, id>> : id \in {x \in q[c] : ~Busy(ActorOf(Pack, c, x))}} : c \in Ctls} ELSE {}
+            cand == {[ctx |-> CtxOf(x[1], x[2]), step |-> CoverStep(x[1], x[2])] : x \in pend}
+                    \cup (IF up THEN {[ctx |-> CtxExec(a), step |-> [k |-> "exec", a |-> a]] : a \in DOMAIN infl} ELSE {})
+                    \cup (IF ~up THEN {[ctx |-> CtxCrashed, step |-> [k |-> "restart"]]} ELSE {})
+            new  == {x \in cand : x.ctx \notin TLCGet(7)}
         IN new = {} \/
-           /\ TLCSet(7, TLCGet(7) \cup {CtxOf(x[1], x[2]) : x \in new})
+           /\ TLCSet(7, TLCGet(7) \cup {x.ctx : x \in new})
            /\ \A x \in new :
-                PrintT(<<"COVER", ToJson([ctx |-> ToString(CtxOf(x[1], x[2])), targets |-> Targets,
-                                          steps |-> Append(sched, [k |-> "run", c |-> x[1], id |-> IdStr(x[1], x[2])])])>>)
+                PrintT(<<"COVER", ToJson([ctx |-> ToString(x.ctx), targets |-> Targets, steps |-> Append(sched, x.step)])>>)
 =============================================================================
